@@ -333,8 +333,24 @@ class Orchestrator:  # thailint: ignore[srp]
         violations = []
         for rule in rules:
             rule_violations = self._safe_check_rule(rule, context)
-            violations.extend(rule_violations)
+            violations.extend(self._drop_suppressed(rule, rule_violations, context))
         return violations
+
+    def _drop_suppressed(
+        self, rule: BaseLintRule, violations: list[Violation], context: BaseLintContext
+    ) -> list[Violation]:
+        """Apply inline ignore directives uniformly, also for rules that do not check them.
+
+        The lazy-ignores rule is exempt: suppression comments are its subject.
+        """
+        if not violations or rule.rule_id.startswith("lazy-ignores"):
+            return violations
+        content = context.file_content
+        if content is None:
+            return violations
+        return [
+            v for v in violations if not self.ignore_parser.should_ignore_violation(v, content)
+        ]
 
     def _safe_check_rule(self, rule: BaseLintRule, context: BaseLintContext) -> list[Violation]:
         """Safely check a rule, returning empty list on error."""
